@@ -98,7 +98,16 @@ class TagStream(Stream):
             sc = list(c.tag_score)
         except Exception as ex:
             return {"error": type(ex).__name__}
-        return {"eligible": el, "score": sc}
+        out = {"eligible": el, "score": sc}
+        if len(c.platforms) > 1:
+            # the platform tags are a set in the code: present them in both orders (a list iterates as given)
+            scores = []
+            for order in (sorted(c.platforms), sorted(c.platforms, reverse=True)):
+                _, c2 = self._cand(case)
+                c2.platforms = order
+                scores.append(list(c2.tag_score))
+            out["ordered"] = scores
+        return out
 
     def model_request(self, case, r):
         if "unparsed" in r or "error" in r:
@@ -151,6 +160,8 @@ class TagStream(Stream):
             return [("C20/raises-" + r["error"], r)]
         supported, other_major, foreign_abi, foreign_plat, cabi = self._classify(case)
         fails = []
+        if "ordered" in r and (r["ordered"][0] != r["ordered"][1] or r["ordered"][0] != r["score"]):
+            fails.append(("C20/score-depends-on-platform-order", {"fn": case["fn"], "scores": r["ordered"], "as-set": r["score"]}))
         if supported and not r["eligible"]:
             fails.append(("C20/supported-rejected" + ("/compressed-abi" if cabi else ""), {"fn": case["fn"]}))
         if (other_major or foreign_abi or foreign_plat) and not supported and r["eligible"]:
@@ -245,9 +256,29 @@ class RankStream(Stream):
         return [{"files": ["foo-1.0-cp312-abi3-linux_x86_64.whl", "foo-1.0-cp312-none-linux_x86_64.whl", "foo-1.0.tar.gz"], "perm": [2, 1, 0]},
                 {"files": ["foo-1.0-py3-none-manylinux1_x86_64.whl", "foo-1.0-py3-none-manylinux_2_5_x86_64.whl"], "perm": [1, 0]}]
 
+    NEAR = ["manylinux1_x86_64", "manylinux_2_5_x86_64", "manylinux2010_x86_64", "manylinux_2_12_x86_64", "manylinux2014_x86_64",
+            "manylinux_2_17_x86_64", "linux_x86_64", "any", "win32", "win_amd64", "macosx_10_9_x86_64"]
+
     def generate(self, rng):
         n = rng.choice([2, 3, 4, 5, 6])
         files = []
+        if rng.random() < 0.3:
+            # near ties: builds of one version for one interpreter and ABI whose platform tag sets overlap, alias each
+            # other or are incomparable (neither a subset of the other) - the usual shape of a project's file list
+            py, abi = rng.choice([("cp312", "cp312"), ("cp312", "abi3"), ("py3", "none"), ("cp38", "abi3"), ("py2.py3", "none")])
+            for _ in range(20):
+                if len(files) >= n:
+                    break
+                plats = sorted(rng.sample(self.NEAR, rng.choice([1, 2, 2, 3])))
+                rng.shuffle(plats)
+                build = rng.choice(["", "", "", "1-", "2-"])
+                f = "foo-1.0-%s%s-%s-%s.whl" % (build, py, abi if rng.random() < 0.85 else "none", ".".join(plats))
+                if f not in files:
+                    files.append(f)
+            if rng.random() < 0.3:
+                files.append("foo-1.0.tar.gz")
+                n = len(files)
+            n = len(files)
         while len(files) < n:
             if rng.random() < 0.2:
                 f = genfiles.gen_sdist_name(rng, "foo", "1.0")
@@ -308,7 +339,7 @@ class RankStream(Stream):
             keys = {}
             for c in cs:
                 if c is not None:
-                    keys.setdefault(c.sortkey, []).append(c.filename)
+                    keys.setdefault(repr(c.sortkey[:4]), []).append(c.filename)        # version, extra, type, tag score
             tied = [v for v in keys.values() if len(v) > 1]
             # which positions differ?
             diff = {f for f, g in zip(r["order"], r["order_permuted"]) if f != g}
